@@ -307,7 +307,7 @@ func runC13(tier string) int {
 	t0 := time.Now()
 	w := buildWorkerH()
 	r := newHistResult("C13", tier)
-	kinds := []string{"CV", "IV", "CB", "CF", "CG", "CW", "CZ", "CN", "CX", "GE", "GX", "GR", "GS", "GB", "NW", "NF", "NB", "SD", "SW", "SP", "SM", "SA", "SB", "ST"}
+	kinds := []string{"CV", "IV", "CB", "CF", "CG", "CW", "CZ", "CN", "CH", "CT", "CX", "GE", "GX", "GR", "GS", "GB", "NW", "NF", "NB", "SD", "SW", "SP", "SM", "SA", "SB", "ST"}
 	// 258 = English + 256, 4294967298 = English + 2^32, -254 = English - 256: unsupported values that
 	// collide with a supported one when a Language is squeezed into a narrower integer (a cache key,
 	// a table index)
@@ -492,7 +492,7 @@ func runC13(tier string) int {
 	r.Transitions = e.transitions
 	r.Evaluations = e.transitions
 	r.Distinct = int64(len(e.distinctOut))
-	r.Rule = "explicit-state BFS over call histories: alphabet = 24 operation kinds (valid/invalid validations, a valid sentence in a non-canonical equivalent spelling, the same string under every language, encodings, the same entropy under every language, NewMnemonic over a scripted source swapped in and out, failing source, seeds with shared mnemonic or shared passphrase, a seed whose returned slice the caller then wipes, one caller-owned entropy buffer refilled in place, String); error values returned earlier must keep their text x languages (quick: ChineseSimplified (the zero value), English, Japanese, Czech, Portuguese + unsupported 10 and 258; thorough: all ten + unsupported 10, -1, 258, 2^32+2, -254); every transition is executed in a fresh OS process by replaying the shortest history to the source state and then the operation; state = SHA-256 of a canonical dump of every package-level variable of bip39 and internal/wordlist; search runs to a fixpoint; plus the complete ordered first-use matrix (10x10 ordered language pairs, each followed by valid/invalid validations in all ten languages), plus long histories (every operation 70 times in a row; the whole alphabet twice; seven cheap operations 1100 times each, thorough 66000; fill histories over many distinct arguments: 130 (thorough 4200) valid sentences and as many encodings, 40 (thorough 600) seeds, each new argument followed by re-uses of the arguments seen 1, 2, 4, 8, ... positions earlier, and every sentence between two validations of its checksum-damaged twin) and the whole alphabet under several process environments (GOMAXPROCS, TZ, locale, HOME, every environment variable the package reads). Oracle per executed call: outcome (value, error class and text, panic) equals the outcome of the same call in a fresh process; caller buffers and earlier results unchanged at the end of the history. distinct_nontrivial = distinct (operation, outcome) pairs observed"
+	r.Rule = "explicit-state BFS over call histories: alphabet = 26 operation kinds (valid/invalid validations, a valid sentence in a non-canonical equivalent spelling, the same sentence with another first word and its last 12 words alone, the same string under every language, encodings, the same entropy under every language, NewMnemonic over a scripted source swapped in and out, failing source, seeds with shared mnemonic or shared passphrase, a seed whose returned slice the caller then wipes, one caller-owned entropy buffer refilled in place, String); error values returned earlier must keep their text x languages (quick: ChineseSimplified (the zero value), English, Japanese, Czech, Portuguese + unsupported 10 and 258; thorough: all ten + unsupported 10, -1, 258, 2^32+2, -254); every transition is executed in a fresh OS process by replaying the shortest history to the source state and then the operation; state = SHA-256 of a canonical dump of every package-level variable of bip39 and internal/wordlist; search runs to a fixpoint; plus the complete ordered first-use matrix (10x10 ordered language pairs, each followed by valid/invalid validations in all ten languages), plus long histories (every operation 70 times in a row; the whole alphabet twice; seven cheap operations 1100 times each, thorough 66000; fill histories over many distinct arguments: 130 (thorough 4200) valid sentences and as many encodings, 40 (thorough 600) seeds, each new argument followed by re-uses of the arguments seen 1, 2, 4, 8, ... positions earlier, and every sentence between two validations of its checksum-damaged twin) and the whole alphabet under several process environments (GOMAXPROCS, TZ, locale, HOME, every environment variable the package reads). Oracle per executed call: outcome (value, error class and text, panic) equals the outcome of the same call in a fresh process; caller buffers and earlier results unchanged at the end of the history. distinct_nontrivial = distinct (operation, outcome) pairs observed"
 	r.Extra["operations"] = len(e.ops)
 	r.Extra["first_use_matrix_histories"] = len(matrix)
 	r.Extra["reached_fixpoint"] = r.Exhaustive
